@@ -82,7 +82,7 @@ _F1 = ['BitUtil_firstBit', 'BitUtil_lastBit', 'BitUtil_bitCount', 'BitBoard_firs
 for f in _F1:
     HARNESS += 'void h_%s(void) { U64 m = nondet_u64(); ghost_s = nondet_int(); %s(m); CANARY_POINT; }\n' % (f, f)
     rep = {'BitBoard_firstSquare': ('BitUtil_firstBit',), 'BitBoard_lastSquare': ('BitUtil_lastBit',), 'BitBoard_bitCount': ('BitUtil_bitCount',)}.get(f, ())
-    GROUPS.append(Group(f, 'h_' + f, enforce=f, replace=rep, min_props=1, timeout=900))
+    GROUPS.append(Group(f, 'h_' + f, enforce=f, replace=rep, min_props=1, timeout=3600))
 for f in ('BitUtil_extractBit', 'BitBoard_extractSquare'):
     HARNESS += 'void h_%s(void) { U64* m; %s(m); CANARY_POINT; }\n' % (f, f)
     GROUPS.append(Group(f, 'h_' + f, enforce=f, replace={'BitUtil_extractBit': ('BitUtil_firstBit',), 'BitBoard_extractSquare': ('BitUtil_extractBit',)}[f], min_props=1))
